@@ -109,6 +109,7 @@ def run(repo: Repo, rep, tier: str):
     rid = "C13-R1"
     rep.rule(rid, "dependence analysis of every public indicator (sequential=True; default parameters and shifted periods): no element "
                   "i of any returned series may depend - through data or control flow - on a candle j > i")
+    rep.assume("x[~isnan(x)] (NaN-stripping of a warm-up padded series): a computed element is taken to be a number, only the constant NaN padding is removed (generic finite inputs)")
     rep.assume("candle values are finite (isnan/isinf of a raw candle value is False); x*0 carries no dependence; slices are copies")
     rep.assume("dependence is a may-analysis: a reported look-ahead is a syntactic flow from candle j > i to element i (all findings on the unchanged tree were confirmed against the running code)")
     inds = [(n, rel, fn) for n, rel, fn in IR.public_indicators(repo) if any(a.arg == "sequential" for a in fn.args.args)]
